@@ -38,6 +38,9 @@ type stCase struct {
 	tkNil   bool      // NewFrameStream (nil tracker); otherwise NewFrameStreamWithTracker(double)
 	tk      []tkEntry // answers of the double; unlisted = unknown (not closed)
 	pre     int       // the receiving stream is created only after the first `pre` events are on the wire
+	hasRv   bool      // reverse phase: B's events, A's read sizes
+	rv      []stEvent
+	rr      []int
 	me      []byte
 	evs     []stEvent
 	ch      []int
@@ -67,19 +70,48 @@ func (c stCase) String() string {
 		fmt.Fprintf(&sb, " pre %d", c.pre)
 	}
 	fmt.Fprintf(&sb, " me %s ev %d", vc.Hex(c.me), len(c.evs))
-	for _, e := range c.evs {
+	evStr(&sb, c.evs)
+	sb.WriteString(" " + sizesStr("ch", c.ch))
+	sb.WriteString(" " + sizesStr("rd", c.rd))
+	if c.hasRv {
+		fmt.Fprintf(&sb, " rv %d", len(c.rv))
+		evStr(&sb, c.rv)
+		sb.WriteString(" " + sizesStr("rr", c.rr))
+	}
+	return sb.String()
+}
+
+func evStr(sb *strings.Builder, evs []stEvent) {
+	for _, e := range evs {
 		switch e.kind {
 		case "w":
-			fmt.Fprintf(&sb, " w %d %d", e.n, e.seed)
+			fmt.Fprintf(sb, " w %d %d", e.n, e.seed)
 		case "cw", "cl":
 			sb.WriteString(" " + e.kind)
 		case "f":
-			fmt.Fprintf(&sb, " f %s %d %d %d", vc.Hex(e.tid), e.ty, e.n, e.seed)
+			fmt.Fprintf(sb, " f %s %d %d %d", vc.Hex(e.tid), e.ty, e.n, e.seed)
 		}
 	}
-	sb.WriteString(" " + sizesStr("ch", c.ch))
-	sb.WriteString(" " + sizesStr("rd", c.rd))
-	return sb.String()
+}
+
+func parseEvs(toks []string, i, n int) ([]stEvent, int) {
+	var evs []stEvent
+	for j := 0; j < n; j++ {
+		switch toks[i] {
+		case "w":
+			evs = append(evs, stEvent{kind: "w", n: atoi(toks[i+1]), seed: atoi(toks[i+2])})
+			i += 3
+		case "cw", "cl":
+			evs = append(evs, stEvent{kind: toks[i]})
+			i++
+		case "f":
+			evs = append(evs, stEvent{kind: "f", tid: vc.UnHex(toks[i+1]), ty: atoi(toks[i+2]), n: atoi(toks[i+3]), seed: atoi(toks[i+4])})
+			i += 5
+		default:
+			panic("st: unknown event " + toks[i])
+		}
+	}
+	return evs, i
 }
 
 func parseSt(toks []string) stCase {
@@ -117,23 +149,17 @@ func parseSt(toks []string) stCase {
 	c.me = vc.UnHex(toks[i+1])
 	n := atoi(toks[i+3])
 	i += 4
-	for j := 0; j < n; j++ {
-		switch toks[i] {
-		case "w":
-			c.evs = append(c.evs, stEvent{kind: "w", n: atoi(toks[i+1]), seed: atoi(toks[i+2])})
-			i += 3
-		case "cw", "cl":
-			c.evs = append(c.evs, stEvent{kind: toks[i]})
-			i++
-		case "f":
-			c.evs = append(c.evs, stEvent{kind: "f", tid: vc.UnHex(toks[i+1]), ty: atoi(toks[i+2]), n: atoi(toks[i+3]), seed: atoi(toks[i+4])})
-			i += 5
-		default:
-			panic("st: unknown event " + toks[i])
+	c.evs, i = parseEvs(toks, i, n)
+	c.ch, i = parseSizes("ch", toks, i)
+	c.rd, i = parseSizes("rd", toks, i)
+	if i < len(toks) && toks[i] == "rv" {
+		c.hasRv = true
+		c.rv, i = parseEvs(toks, i+2, atoi(toks[i+1]))
+		c.rr, _ = parseSizes("rr", toks, i)
+		if c.tailErr || len(c.ch) > 0 {
+			panic("st: a reverse phase needs a direct connection (tail eof, no ch)")
 		}
 	}
-	c.ch, i = parseSizes("ch", toks, i)
-	c.rd, _ = parseSizes("rd", toks, i)
 	return c
 }
 
@@ -426,6 +452,78 @@ func execStWith(toks []string, setup func(*stCase, func(io.Closer)) stSetup) str
 			sb.WriteString(" " + r)
 		}
 		fmt.Fprintf(&sb, " rb %d wb %d", b2i(R.IsBroken()), b2i(W.IsBroken()))
+		if c.hasRv {
+			// reverse phase on the SAME two stream objects: B (=R) writes, A (=W) reads
+			var bw []string
+			bdone := make(chan struct{})
+			go func() {
+				defer close(bdone)
+				defer func() { recover() }()
+				for _, e := range c.rv {
+					switch e.kind {
+					case "w":
+						n, err := R.Write(genBytes(e.n, e.seed))
+						switch {
+						case err == nil:
+							bw = append(bw, "ok:"+strconv.Itoa(n))
+						case err == io.ErrClosedPipe && n == 0:
+							bw = append(bw, "closed")
+						default:
+							bw = append(bw, "err:"+strconv.Itoa(n))
+						}
+					case "cw":
+						R.CloseWrite()
+					case "cl":
+						R.Close()
+					case "f":
+						fid, _ := crossnode.TunnelIDFromString(string(e.tid))
+						crossnode.WriteFrame(rT, fid, byte(e.ty), genBytes(e.n, e.seed))
+					}
+				}
+				rT.CloseWrite()
+			}()
+			ref2 := refStream(stCase{me: c.me, evs: c.rv})
+			cur2 := 0
+			var ar []string
+			for _, p := range c.rr {
+				buf := make([]byte, p)
+				n, err := W.Read(buf)
+				if err == nil {
+					if n > 0 && cur2+n <= len(ref2) && bytes.Equal(ref2[cur2:cur2+n], buf[:n]) {
+						ar = append(ar, "x:"+strconv.Itoa(n))
+					} else {
+						ar = append(ar, "d:"+vc.Hex(buf[:n]))
+					}
+					cur2 += n
+					continue
+				}
+				if n != 0 {
+					ar = append(ar, fmt.Sprintf("data-and-error:%d", n))
+					break
+				}
+				if err == io.EOF {
+					ar = append(ar, "eof")
+					continue
+				}
+				ar = append(ar, "err:"+kindOf(err))
+				break
+			}
+			select {
+			case <-bdone:
+			case <-time.After(50 * time.Millisecond):
+				go io.Copy(io.Discard, wT)
+				<-bdone
+			}
+			fmt.Fprintf(&sb, " rv wr %d", len(bw))
+			for _, w := range bw {
+				sb.WriteString(" " + w)
+			}
+			fmt.Fprintf(&sb, " rd %d", len(ar))
+			for _, r := range ar {
+				sb.WriteString(" " + r)
+			}
+			fmt.Fprintf(&sb, " rb %d wb %d", b2i(W.IsBroken()), b2i(R.IsBroken()))
+		}
 		resCh <- su.prefix + sb.String()
 	}()
 	select {
@@ -553,8 +651,41 @@ func withTracker(r *vc.Rand, c *stCase) {
 	}
 }
 
+// withReverse adds a reverse phase (B answers on the stream it has read from, A reads on the one it
+// has written to) to a case that runs on a direct connection.
+func withReverse(r *vc.Rand, c *stCase) {
+	if c.hasRv || c.tailErr || len(c.ch) > 0 {
+		return
+	}
+	c.hasRv = true
+	for j := 0; j < r.Intn(4); j++ {
+		switch r.Intn(6) {
+		case 0:
+			c.rv = append(c.rv, stEvent{kind: "f", tid: foreignFor(r, c.me), ty: vc.Pick(r, []int{1, 3, 9}), n: r.Intn(30), seed: r.Intn(256)})
+		case 1:
+			c.rv = append(c.rv, stEvent{kind: "f", tid: c.me, ty: vc.Pick(r, unknownTypes), n: r.Intn(30), seed: r.Intn(256)})
+		default:
+			c.rv = append(c.rv, stEvent{kind: "w", n: vc.Pick(r, []int{0, 1, 5, 900, 1450, 70000}), seed: r.Intn(256)})
+		}
+	}
+	if r.Intn(5) > 0 {
+		c.rv = append(c.rv, stEvent{kind: vc.Pick(r, []string{"cw", "cl"})})
+		if r.Intn(3) == 0 {
+			c.rv = append(c.rv, stEvent{kind: "w", n: 3, seed: 1}, stEvent{kind: vc.Pick(r, []string{"cw", "cl"})})
+		}
+	}
+	tmp := stCase{me: c.me, evs: c.rv}
+	mkReads(r, &tmp, vc.Pick(r, [][]int{{maxFrame}, {1 + r.Intn(9)}, {1 + r.Intn(3000), maxFrame}}), 3)
+	c.rr = tmp.rd
+}
+
 func stLine(r *vc.Rand, c stCase, kind string, key string) caseLine {
 	withTracker(r, &c)
+	if kind == "small-scope" || kind == "random" || kind == "duplex" {
+		if kind == "duplex" || r.Intn(3) == 0 {
+			withReverse(r, &c)
+		}
+	}
 	var ek strings.Builder
 	for _, e := range c.evs {
 		fmt.Fprintf(&ek, "%s%x/%d/%d;", e.kind, e.tid, e.ty, e.n)
@@ -563,7 +694,7 @@ func stLine(r *vc.Rand, c stCase, kind string, key string) caseLine {
 	if len(rdk) > 80 {
 		rdk = rdk[:80]
 	}
-	dk := fmt.Sprintf("%x|%s|%v|%v|%s|%v|%v%v%d", c.me, ek.String(), c.tailErr, c.rw, rdk, c.ch, c.tkNil, c.tk, c.pre)
+	dk := fmt.Sprintf("%x|%s|%v|%v|%s|%v|%v%v%d", c.me, ek.String(), c.tailErr, c.rw, rdk, c.ch, c.tkNil, c.tk, c.pre) + fmt.Sprint(c.hasRv, len(c.rv), len(c.rr))
 	if len(c.evs) < 2 {
 		dk = ""
 	}
@@ -712,6 +843,26 @@ func genSt(r *vc.Rand, thorough bool) []caseLine {
 		c.evs = []stEvent{{kind: "w", n: k*maxFrame + n, seed: r.Intn(256)}, {kind: "w", n: 2, seed: 5}, {kind: []string{"cw", "cl"}[i%2]}}
 		mkReads(r, &c, []int{maxFrame}, 3)
 		out = append(out, stLine(r, c, "sweep-last-chunk", ""))
+	}
+	// (2c) request / response on the same stream objects: every way the request direction ends
+	//      (half-close, close, nothing, peer-looking terminator frames) x B half-closed before or not
+	for i := 0; i < 48; i++ {
+		c := stCase{me: meIDs[i%len(meIDs)], rw: i%4 == 3}
+		c.evs = []stEvent{{kind: "w", n: vc.Pick(r, []int{1, 100, 1450, 66000}), seed: r.Intn(256)}}
+		switch i % 6 {
+		case 0:
+			c.evs = append(c.evs, stEvent{kind: "cw"})
+		case 1:
+			c.evs = append(c.evs, stEvent{kind: "cl"})
+		case 2:
+			c.evs = append(c.evs, stEvent{kind: "cw"}, stEvent{kind: "cl"})
+		case 3:
+			c.evs = append(c.evs, stEvent{kind: "f", tid: c.me, ty: 9, n: 0}, stEvent{kind: "w", n: 2, seed: 1})
+		case 4:
+			c.evs = append(c.evs, stEvent{kind: "f", tid: foreignFor(r, c.me), ty: 9, n: 0})
+		}
+		mkReads(r, &c, vc.Pick(r, [][]int{{maxFrame}, {7}, {700}}), 3)
+		out = append(out, stLine(r, c, "duplex", ""))
 	}
 	// (3) random scripts
 	rounds := 450
